@@ -15,15 +15,19 @@
      calib <seed> <k> <bursts>
          same run, prints the observed maxima of the S4 statistics instead of judging them
          (used once, by hand, to produce tools/c09_calibration.json).
-   <thresholds> = peak,decay,reconv,fecratio  (floats; from tools/c09_calibration.json)
+   <thresholds> = peak,decay,reconv,fecratio,decay2,fecframe  (floats; from tools/props/C09_calib.json)
 
    S4 oracles (on the implementation, thresholds calibrated on the unchanged tree):
      duration   requested duration returned for every concealment / FEC call      (do_call)
      finite     every produced sample finite                                      (do_call)
      peak       concealed / FEC output peak <= peak * max(level before the loss, 0.02)
-     decay      after 1 s of sustained loss the level is <= decay * pre-loss level
+     decay      after 1 s (decay2: 2 s) of sustained loss the level of EVERY OUTPUT CHANNEL is <= decay * its pre-loss level
+                (bursts include mono streams decoded by a stereo decoder and the reverse)
+     fecframe   every frame rebuilt from LBRR data: rms error <= fecframe * (max(frame rms, concealment error) + 5e-3)
+                (stereo streams whose width keeps changing are included)
      reconv     400 ms after packets resume, rms(lossy - lossfree) <= reconv * rms(lossfree) + 2e-3
-     range      every received packet decodes with the encoder's final range, whatever was lost before
+     range      every received packet decodes with the encoder's final range, whatever was lost before (incl. streams
+                that switch SILK -> CELT -> SILK inside the enumerated loss window)
      lbrr       opus_packet_has_lbrr == the LBRR flag silk_Decode decodes from the packet
      fecgain    over the run: sum err(FEC)^2 <= fecratio * sum err(PLC)^2, both measured against the loss-free
                 twin on frames whose successor carries LBRR and on which concealment visibly fails  */
@@ -31,7 +35,7 @@
 #include "c01_decskel.c"
 
 /* ------------------------------------------------------------------ speech-like source */
-typedef struct { double ph, t, nz; vrng r; } speech;
+typedef struct { double ph, ph2, t, t0, nz; vrng r; int wide; } speech;   /* wide: cycle silence / L=R / L and R different (0.16 s each, from t0) */
 static void speech_gen(speech *s, float *out, int N, int ch)
 {
    int i, h, c;
@@ -49,13 +53,24 @@ static void speech_gen(speech *s, float *out, int N, int ch)
       }
       s->nz = 0.7 * s->nz + 0.3 * (((int)vbelow(&s->r, 2001) - 1000) / 1000.0);
       v = 0.22 * env * v + (0.012 + 0.09 * uv) * s->nz;
+      if (s->wide && ch == 2) {
+         /* stereo image that keeps changing: the side channel (and with it the side VAD / LBRR flags) comes and goes */
+         int cyc = (int)((t - s->t0) / 0.16) % 3; double f02 = 205 + 35 * sin(2 * M_PI * 1.3 * t), v2 = 0;
+         s->ph2 += 2 * M_PI * f02 / 48000.0; if (s->ph2 > 2 * M_PI) s->ph2 -= 2 * M_PI;
+         for (h = 1; h <= 16; h++) v2 += sin(h * s->ph2) / h * (1.0 / (1.0 + (h * f02 - 900) * (h * f02 - 900) / (300.0 * 300.0)) + 0.1);
+         v2 = 0.2 * (0.6 + 0.4 * sin(2 * M_PI * 3.1 * t)) * v2;
+         if (cyc == 0) { out[i * 2] = (float)(0.002 * s->nz); out[i * 2 + 1] = (float)(0.002 * s->nz); }
+         else if (cyc == 1) { out[i * 2] = (float)v; out[i * 2 + 1] = (float)v; }
+         else { out[i * 2] = (float)v; out[i * 2 + 1] = (float)v2; }
+      } else
       for (c = 0; c < ch; c++) out[i * ch + c] = (float)(c ? 0.8 * v : v);
       s->t += 1.0 / 48000.0;
    }
 }
 
 /* ------------------------------------------------------------------ configurations */
-typedef struct { int mode, bw, dur, bitrate, fec, ench, Fs, ch, shape, gain; } lcfg;
+typedef struct { int mode, bw, dur, bitrate, fec, ench, Fs, ch, shape, gain, sig, sw; } lcfg;
+/* sig 1: stereo width cycle; sw 1: the encoder is switched SILK -> CELT -> SILK inside the loss window (redundant frames both ways) */
 /* dur in 2.5 ms units */
 static const lcfg BASE[] = {
    { MODE_SILK_ONLY, OPUS_BANDWIDTH_WIDEBAND,      8, 24000, 1, 1, 48000, 1, -1, 0 },
@@ -70,18 +85,25 @@ static const lcfg BASE[] = {
    { MODE_CELT_ONLY, OPUS_BANDWIDTH_SUPERWIDEBAND, 1, 128000, 0, 2, 48000, 1, -1, 0 },
    { -1,             OPUS_AUTO,                    8, 20000, 1, 1, 48000, 1, -1, 0 },   /* automatic mode switching */
    { -1,             OPUS_AUTO,                   16, 32000, 1, 2, 16000, 2, -1, 300 },
+   { MODE_SILK_ONLY, OPUS_BANDWIDTH_WIDEBAND,      8, 36000, 1, 2, 48000, 2,  2, 0, 1, 0 },   /* 12: stereo FEC, changing width */
+   { MODE_HYBRID,    OPUS_BANDWIDTH_FULLBAND,      8, 48000, 1, 2, 24000, 2,  2, 0, 1, 0 },   /* 13: same, hybrid */
+   { -1,             OPUS_AUTO,                    8, 14000, 0, 1, 48000, 1, -1, 0, 0, 1 },   /* 14: mode switch in the window */
+   { -1,             OPUS_AUTO,                    8, 16000, 1, 1, 16000, 2, -1, 0, 0, 1 },   /* 15: same, FEC on, other decoder */
 };
+#define ANCHOR(i) ((i) == 0 || (i) == 4 || (i) == 6 || (i) == 10 || (i) == 12 || (i) == 14)
 #define NBASE ((int)(sizeof BASE / sizeof BASE[0]))
 
 #define MAXPK 1200
 typedef struct {
    unsigned char *pkt[MAXPK]; int len[MAXPK]; opus_uint32 rng[MAXPK]; int lbrr[MAXPK]; int n;
    float *ref;                /* loss-free twin output, n*D*ch samples */
+   int sw0;                   /* first packet encoded with the CELT settings (sw configurations) */
+   int nmode[3], nsw;         /* packets per mode (SILK, hybrid, CELT); mode changes between consecutive packets */
    int D;                     /* packet duration in samples at cfg.Fs */
 } stream_t;
 
-static struct { double peak, decay, reconv, fecratio; } TH = { 1e9, 1e9, 1e9, 1e9 };
-static struct { double peak, decay, reconv, fecratio; long npeak, ndecay, nreconv, nfec, nrange, nlbrr, nshape[4], nsess; } OBS;
+static struct { double peak, decay, reconv, fecratio, decay2, fecframe; } TH = { 1e9, 1e9, 1e9, 1e9, 1e9, 1e9 };
+static struct { double peak, decay, reconv, fecratio, decay2, fecframe; long npeak, ndecay, ndecay2, nreconv, nfec, nfecframe, nrange, nlbrr, nshape[4], nsess, nmode[3], nsw, nm2s, nedge; } OBS;
 static int g_calib;
 static double g_efec, g_eplc;      /* over the whole run: FEC vs PLC error energy on frames where PLC fails */
 
@@ -105,26 +127,37 @@ static int make_stream(const lcfg *c, vrng *r, int n, stream_t *S)
 {
    static float in[2 * 5760]; static unsigned char buf[1500];
    speech sp; int err, i; OpusEncoder *enc; OpusDecoder *twin; int q = G.quiet;
-   memset(&sp, 0, sizeof sp); sp.r.s = vnext(r); sp.t = vbelow(r, 4000) / 1000.0;
-   enc = opus_encoder_create(48000, c->ench, c->mode == MODE_CELT_ONLY ? OPUS_APPLICATION_AUDIO : OPUS_APPLICATION_VOIP, &err);
+   memset(&sp, 0, sizeof sp); sp.r.s = vnext(r); sp.t = vbelow(r, 4000) / 1000.0; sp.t0 = sp.t - vbelow(r, 160) / 1000.0; sp.wide = c->sig == 1;
+   enc = opus_encoder_create(48000, c->ench, (c->mode == MODE_CELT_ONLY || c->sw) ? OPUS_APPLICATION_AUDIO : OPUS_APPLICATION_VOIP, &err);
    if (!enc) return 0;
    opus_encoder_ctl(enc, OPUS_SET_BITRATE(c->bitrate));
    if (c->mode >= 0) opus_encoder_ctl(enc, OPUS_SET_FORCE_MODE(c->mode));
    if (c->bw != OPUS_AUTO) { opus_encoder_ctl(enc, OPUS_SET_BANDWIDTH(c->bw)); opus_encoder_ctl(enc, OPUS_SET_MAX_BANDWIDTH(c->bw)); }
+   if (c->sig == 1) opus_encoder_ctl(enc, OPUS_SET_FORCE_CHANNELS(2));   /* keep the stream stereo while its width changes */
    opus_encoder_ctl(enc, OPUS_SET_INBAND_FEC(c->fec));
    opus_encoder_ctl(enc, OPUS_SET_PACKET_LOSS_PERC(c->fec ? 25 : 0));
    opus_encoder_ctl(enc, OPUS_SET_COMPLEXITY(5));
-   S->n = 0; S->D = c->dur * (c->Fs / 400);
+   S->n = 0; S->D = c->dur * (c->Fs / 400); S->nmode[0] = S->nmode[1] = S->nmode[2] = S->nsw = 0;
    S->ref = (float *)malloc(sizeof(float) * (size_t)n * S->D * c->ch);
    twin = opus_decoder_create(c->Fs, c->ch, &err);
    if (c->gain) opus_decoder_ctl(twin, OPUS_SET_GAIN(c->gain));
    G.quiet = 1;
    for (i = 0; i < n; i++) {
       int N = c->dur * 120, len; callres cr;
+      if (c->sw) {
+         /* packets sw0 .. sw0+2 with music / 160 kb/s / fullband settings: packet sw0 is still SILK or hybrid and carries the
+            SILK->CELT redundant frame, sw0+1 .. sw0+2 are CELT, packet sw0+3 is SILK again with the CELT->SILK redundant frame */
+         int hi = i >= S->sw0 && i < S->sw0 + 3;
+         opus_encoder_ctl(enc, OPUS_SET_SIGNAL(hi ? OPUS_SIGNAL_MUSIC : OPUS_SIGNAL_VOICE));
+         opus_encoder_ctl(enc, OPUS_SET_BITRATE(hi ? 160000 : c->bitrate));
+         opus_encoder_ctl(enc, OPUS_SET_BANDWIDTH(hi ? OPUS_BANDWIDTH_FULLBAND : OPUS_BANDWIDTH_WIDEBAND));
+      }
       speech_gen(&sp, in, N, c->ench);
       len = opus_encode_float(enc, in, N, buf, sizeof buf);
       if (len <= 0) break;
       S->pkt[i] = (unsigned char *)malloc(len); memcpy(S->pkt[i], buf, len); S->len[i] = len;
+      { int m = (buf[0] & 0x80) ? 2 : ((buf[0] & 0x60) == 0x60 ? 1 : 0); S->nmode[m]++;
+        if (i > 0) { int pm = (S->pkt[i - 1][0] & 0x80) ? 2 : ((S->pkt[i - 1][0] & 0x60) == 0x60 ? 1 : 0); if (pm != m) S->nsw++; } }
       opus_encoder_ctl(enc, OPUS_GET_FINAL_RANGE(&S->rng[i]));
       cr = do_call(twin, FMTF, buf, len, 0, len, S->D, 0, S->ref + (size_t)i * S->D * c->ch);
       S->lbrr[i] = G.lbrr_seen;
@@ -220,6 +253,17 @@ static void lossy_run(const lcfg *c, const stream_t *S, const unsigned char *los
                   /* frames on which concealment visibly fails (error above half the signal level): there the
                      redundant copy must be much closer to the loss-free output */
                   if (b > 0.5 * rms(ref, (long)D * ch) && b > 2e-3) { *efec += a * a; *eplc += b * b; OBS.nfec++; }
+                  /* per frame: a frame rebuilt from LBRR data may be coarse, but its error stays of the order of the signal
+                     or of what concealment would have done — never a multiple of both */
+                  {
+                     double lv = rms(ref, (long)D * ch), den = (lv > b ? lv : b) + 0.02;
+                     OBS.nfecframe++;
+                     /* SILK stereo header of a single-frame packet: VADmid LBRRmid VADside LBRRside */
+                     if ((S->pkt[i + 1][0] & 0x84) == 0x04 && (S->pkt[i + 1][0] & 3) == 0 && S->len[i + 1] > 1 && c->dur == 8) {
+                        int hb = S->pkt[i + 1][1]; if (((hb >> 6) & 1) && ((hb >> 5) & 1) != ((hb >> 4) & 1)) OBS.nedge++;
+                     }
+                     judge("fecframe", a / den, &OBS.fecframe, TH.fecframe, "packet %d rebuilt from the LBRR data of packet %d: rms error %.5f, loss-free frame rms %.5f, concealment error %.5f", i, i + 1, a, lv, b);
+                  }
                }
                free(C);
             }
@@ -237,14 +281,22 @@ static void lossy_run(const lcfg *c, const stream_t *S, const unsigned char *los
             OBS.npeak++;
             judge("peak", pk / ref, &OBS.peak, TH.peak, "packet %d (loss burst from %d): concealed peak %.4f, level before the loss %.4f", i, first_loss, pk, pre_level);
          }
-         if (burst && pre_rms > 0.01) {
-            /* sustained loss: level 1.0-1.1 s into the burst */
-            double tl = (double)(i - first_loss) * D / c->Fs;
-            if (tl >= 1.0 && tl < 1.0 + (double)D / c->Fs + 1e-9) {
+         if (burst) {
+            /* sustained loss: level 1.0-1.1 s and 2.0-2.1 s into the burst, PER OUTPUT CHANNEL, against that channel's level
+               in the 60 ms before the loss */
+            double tl = (double)(i - first_loss) * D / c->Fs; int which = 0, cc;
+            if (tl >= 1.0 && tl < 1.0 + (double)D / c->Fs + 1e-9) which = 1;
+            else if (tl >= 2.0 && tl < 2.0 + (double)D / c->Fs + 1e-9) which = 2;
+            if (which) for (cc = 0; cc < ch; cc++) {
                int k = (int)(0.1 * c->Fs) / D + 1, j0 = i - k + 1 < first_loss ? first_loss : i - k + 1;
-               double lv = rms(out + (size_t)j0 * D * ch, (long)(i - j0 + 1) * D * ch);
-               OBS.ndecay++;
-               judge("decay", lv / pre_rms, &OBS.decay, TH.decay, "1 s into a loss burst starting at packet %d: rms %.5f, pre-loss rms %.5f", first_loss, lv, pre_rms);
+               int back = (int)(0.06 * c->Fs) / D + 1, b0 = first_loss - back < 0 ? 0 : first_loss - back; long q2, nq; double e = 0, pe = 0, lv, pv;
+               nq = (long)(i - j0 + 1) * D; for (q2 = 0; q2 < nq; q2++) { double x = out[((size_t)j0 * D + q2) * ch + cc]; e += x * x; }
+               lv = sqrt(e / (nq > 0 ? nq : 1));
+               nq = (long)(first_loss - b0) * D; for (q2 = 0; q2 < nq; q2++) { double x = out[((size_t)b0 * D + q2) * ch + cc]; pe += x * x; }
+               pv = sqrt(pe / (nq > 0 ? nq : 1));
+               if (pv <= 0.01) continue;
+               if (which == 1) { OBS.ndecay++; judge("decay", lv / pv, &OBS.decay, TH.decay, "channel %d of %d (stream has %d), 1 s into a loss burst starting at packet %d: rms %.5f, pre-loss rms %.5f", cc, ch, c->ench, first_loss, lv, pv); }
+               else { OBS.ndecay2++; judge("decay2", lv / pv, &OBS.decay2, TH.decay2, "channel %d of %d (stream has %d), 2 s into a loss burst starting at packet %d: rms %.5f, pre-loss rms %.5f", cc, ch, c->ench, first_loss, lv, pv); }
             }
          }
       }
@@ -268,7 +320,9 @@ static void run_config(const lcfg *c, vrng *r, int k, int all_patterns)
    int pre = (int)(pre_s * c->Fs) / D + 2, post = (int)(post_s * c->Fs) / D + 2, n = pre + k + post, npat, p, i;
    double efec = 0, eplc = 0; unsigned char lost[MAXPK];
    if (n > MAXPK) return;
+   S.sw0 = pre + 1;
    if (!make_stream(c, r, n, &S)) { free_stream(&S); return; }
+   OBS.nmode[0] += S.nmode[0]; OBS.nmode[1] += S.nmode[1]; OBS.nmode[2] += S.nmode[2]; OBS.nsw += S.nsw;
    check_lbrr(c, &S);
    npat = all_patterns ? (1 << k) : 24;
    for (p = all_patterns ? 1 : 0; p < npat; p++) {
@@ -285,15 +339,61 @@ static void run_config(const lcfg *c, vrng *r, int k, int all_patterns)
    free_stream(&S);
 }
 
-static void run_burst(vrng *r)
+/* FEC scan: a 3 s stream; every packet in turn is treated as the only lost one and rebuilt (a) from the LBRR data of its
+   successor, (b) by concealment, both from a copy of the decoder state, and compared with the loss-free output */
+static void run_fecscan(const lcfg *c, vrng *r)
 {
-   lcfg c = BASE[vbelow(r, NBASE)]; stream_t S; int D, pre, blen, post, n, i; unsigned char lost[MAXPK]; double e1 = 0, e2 = 0;
+   stream_t S; int D = c->dur * (c->Fs / 400), n = (int)(3.0 * c->Fs) / D, err, p, ch = c->ch; OpusDecoder *A;
+   static float ofec[2 * 5760], oplc[2 * 5760], cur[2 * 5760]; static unsigned char dummy[1]; double efec = 0, eplc = 0;
+   if (n > MAXPK) n = MAXPK;
+   S.sw0 = n + 10;
+   if (!make_stream(c, r, n, &S)) { free_stream(&S); return; }
+   A = opus_decoder_create(c->Fs, ch, &err);
+   OBS.nsess++;
+   for (p = 0; p + 1 < n; p++) {
+      callres cr;
+      if (S.lbrr[p + 1] == 1 && p > 0) {
+         OpusDecoder *F = clone_dec(A, ch), *P = clone_dec(A, ch); callres cf, cp; int q = G.quiet;
+         cf = do_call(F, FMTF, S.pkt[p + 1], S.len[p + 1], 0, S.len[p + 1], D, 1, ofec);
+         G.quiet = 1; cp = do_call(P, FMTF, dummy, 0, 1, 0, D, 0, oplc); G.quiet = q;
+         if (cf.ret == D && cp.ret == D) {
+            const float *ref = S.ref + (size_t)p * D * ch; double a = rmsdiff(ofec, ref, (long)D * ch), b = rmsdiff(oplc, ref, (long)D * ch);
+            double lv = rms(ref, (long)D * ch), den = (lv > b ? lv : b) + 0.02;
+            if (b > 0.5 * lv && b > 2e-3) { efec += a * a; eplc += b * b; OBS.nfec++; }
+            OBS.nfecframe++;
+            if ((S.pkt[p + 1][0] & 0x84) == 0x04 && (S.pkt[p + 1][0] & 3) == 0 && S.len[p + 1] > 1 && c->dur == 8) {
+               int hb = S.pkt[p + 1][1]; if (((hb >> 6) & 1) && ((hb >> 5) & 1) != ((hb >> 4) & 1)) OBS.nedge++;
+            }
+            judge("fecframe", a / den, &OBS.fecframe, TH.fecframe, "packet %d rebuilt from the LBRR data of packet %d: rms error %.5f, loss-free frame rms %.5f, concealment error %.5f", p, p + 1, a, lv, b);
+         } else witness("conceal", "FEC / concealment of packet %d did not return the requested duration", p);
+         free(F); free(P);
+      }
+      { int q = G.quiet; G.quiet = 1; cr = do_call(A, FMTF, S.pkt[p], S.len[p], 0, S.len[p], D, 0, cur); G.quiet = q; }
+      if (cr.ret != D) break;
+   }
+   g_efec += efec; g_eplc += eplc;
+   opus_decoder_destroy(A); free_stream(&S);
+}
+
+/* long bursts: the first ones walk through a fixed list (mono stream into a stereo decoder and the reverse, every mode), the
+   rest are random */
+static const struct { int base, ench, ch, Fs, dur; } BURST[] = {
+   { 6, 1, 2, 48000, 8 }, { 7, 1, 2, 16000, 4 }, { 4, 1, 2, 48000, 8 }, { 0, 1, 2, 24000, 8 },
+   { 6, 2, 1, 48000, 8 }, { 6, 2, 2, 48000, 4 }, { 8, 1, 2, 24000, 4 }, { 5, 2, 2, 12000, 4 },
+};
+#define NBURST ((int)(sizeof BURST / sizeof BURST[0]))
+static void run_burst(vrng *r, int idx)
+{
+   lcfg c = BASE[vbelow(r, 12)]; stream_t S; int D, pre, blen, post, n, i; unsigned char lost[MAXPK]; double e1 = 0, e2 = 0;
    static const int RATES5[5] = {8000, 12000, 16000, 24000, 48000};
    c.Fs = RATES5[vbelow(r, 5)]; c.ch = 1 + vbelow(r, 2); c.shape = vbelow(r, 2); c.fec = 0;
+   if (idx < NBURST) { c = BASE[BURST[idx].base]; c.ench = BURST[idx].ench; c.ch = BURST[idx].ch; c.Fs = BURST[idx].Fs; c.dur = BURST[idx].dur; c.shape = idx & 1; c.fec = 0; }
+   if (c.ench == 1 && c.ch == 2) OBS.nm2s++;
    if (c.dur < 4) c.dur = 4;
    D = c.dur * (c.Fs / 400);
-   pre = (int)(0.5 * c.Fs) / D + 1; blen = (int)((1.15 + vbelow(r, 9)) * c.Fs) / D + 1; post = (int)(0.55 * c.Fs) / D + 2; n = pre + blen + post;
+   pre = (int)(0.5 * c.Fs) / D + 1; blen = (int)(((idx < NBURST ? 2.2 : 1.15) + vbelow(r, idx < NBURST ? 2 : 9)) * c.Fs) / D + 1; post = (int)(0.55 * c.Fs) / D + 2; n = pre + blen + post;
    if (n > MAXPK) { blen = MAXPK - pre - post; n = MAXPK; }
+   S.sw0 = n + 10;
    if (!make_stream(&c, r, n, &S)) { free_stream(&S); return; }
    memset(lost, 0, sizeof lost);
    for (i = 0; i < blen; i++) lost[pre + i] = 1;
@@ -310,20 +410,23 @@ int main(int argc, char **argv)
       r.s = strtoull(argv[2], 0, 10) * 0xD1342543DE82EF95ULL + 0x632BE59BD9B4E019ULL; r.s ^= vnext(&r) >> 7;   /* not a shift of another seed's Weyl sequence */ k = atoi(argv[3]); bursts = atoi(argv[4]);
       if (k < 1) k = 1; if (k > 14) k = 14;
       if (!g_calib) {
-         if (argc < 6 || sscanf(argv[5], "%lf,%lf,%lf,%lf", &TH.peak, &TH.decay, &TH.reconv, &TH.fecratio) != 4) { fprintf(stderr, "thresholds?\n"); return 64; }
+         if (argc < 6 || sscanf(argv[5], "%lf,%lf,%lf,%lf,%lf,%lf", &TH.peak, &TH.decay, &TH.reconv, &TH.fecratio, &TH.decay2, &TH.fecframe) != 6) { fprintf(stderr, "thresholds?\n"); return 64; }
          G.quiet = argc >= 7 && !strcmp(argv[6], "quiet");
       } else G.quiet = 1;
       for (i = 0; i < NBASE; i++) {
          lcfg c = BASE[i];
          /* full enumeration of the 2^k patterns on four anchor configurations, random patterns on the others */
-         run_config(&c, &r, k, i == 0 || i == 4 || i == 6 || i == 10);
+         run_config(&c, &r, k, ANCHOR(i));
       }
-      for (i = 0; i < bursts; i++) run_burst(&r);
+      { lcfg c = BASE[12]; run_fecscan(&c, &r); c = BASE[13]; run_fecscan(&c, &r); c = BASE[0]; run_fecscan(&c, &r); c = BASE[11]; c.sig = 1; run_fecscan(&c, &r); }
+      for (i = 0; i < bursts; i++) run_burst(&r, i);
       if (g_eplc > 0 && OBS.nfec >= 30)
          judge("fecgain", g_efec / g_eplc, &OBS.fecratio, TH.fecratio, "sum err(FEC)^2 = %.3e, sum err(PLC)^2 = %.3e over %ld frames whose successor carries LBRR and on which concealment fails", g_efec, g_eplc, OBS.nfec);
-      printf("# loss seed=%s k=%d bursts=%d sessions=%ld calls=%ld witnesses=%ld shapes=%ld/%ld/%ld/%ld range=%ld lbrr=%ld fecframes=%ld\n", argv[2], k, bursts,
-             OBS.nsess, G.n_calls, G.n_w, OBS.nshape[0], OBS.nshape[1], OBS.nshape[2], OBS.nshape[3], OBS.nrange, OBS.nlbrr, OBS.nfec);
-      printf("# stats peak=%.4f(n=%ld) decay=%.5f(n=%ld) reconv=%.4f(n=%ld) fecratio=%.4f\n", OBS.peak, OBS.npeak, OBS.decay, OBS.ndecay, OBS.reconv, OBS.nreconv, OBS.fecratio);
+      printf("# loss seed=%s k=%d bursts=%d sessions=%ld calls=%ld witnesses=%ld shapes=%ld/%ld/%ld/%ld range=%ld lbrr=%ld fecframes=%ld/%ld packets(silk/hybrid/celt)=%ld/%ld/%ld modeswitches=%ld mono2stereo_bursts=%ld side_flag_edges=%ld\n", argv[2], k, bursts,
+             OBS.nsess, G.n_calls, G.n_w, OBS.nshape[0], OBS.nshape[1], OBS.nshape[2], OBS.nshape[3], OBS.nrange, OBS.nlbrr, OBS.nfec, OBS.nfecframe,
+             OBS.nmode[0], OBS.nmode[1], OBS.nmode[2], OBS.nsw, OBS.nm2s, OBS.nedge);
+      printf("# stats peak=%.4f(n=%ld) decay=%.5f(n=%ld) decay2=%.5f(n=%ld) reconv=%.4f(n=%ld) fecratio=%.4f fecframe=%.4f(n=%ld)\n", OBS.peak, OBS.npeak, OBS.decay, OBS.ndecay,
+             OBS.decay2, OBS.ndecay2, OBS.reconv, OBS.nreconv, OBS.fecratio, OBS.fecframe, OBS.nfecframe);
       return 0;
    }
    fprintf(stderr, "usage: c09_loss loss <seed> <k> <bursts> <peak,decay,reconv,fecratio> [quiet] | calib <seed> <k> <bursts>\n");
